@@ -19,8 +19,8 @@ import (
 // a violation by itself.  Classification:
 //   - wt rejects and Go crashes  -> property violation, key "wt-reject:<reason>"
 //     (a hole of the Go checker, predicted by the verified checker)
-//   - wt accepts inside the proved fragment (Static.s2_program: everything except the
-//     un-modelled built-ins; the answer is "(wt true <in s2> <in s1>)") and Go crashes
+//   - wt accepts inside the proved fragment (Static.s2_program: everything except calls of the
+//     built-ins Sem.v does not model: repr clear grid gridn poly ellipse dash font; the answer is "(wt true <in s2> <in s1>)") and Go crashes
 //     -> correspondence violation "stage1-crash" (contradicts C02_soundness_modulo_overflow_partial /
 //     C02_handlers_modulo_overflow_partial: the model or the export is wrong; a stack overflow on a
 //     cyclic value kills the process and is not seen here)
@@ -98,6 +98,24 @@ func c02Events(ev *evaluator.Evaluator, hs map[string]*parser.EventHandlerStmt) 
 	return
 }
 
+// c02OutsideBuiltins: which of the built-ins outside the proved fragment occur as words of the source (a label for
+// the distribution only; the decision inside / outside is Static.s2_program's)
+func c02OutsideBuiltins(src string) []string {
+	var out []string
+	words := map[string]bool{}
+	for _, w := range strings.FieldsFunc(src, func(c rune) bool {
+		return !(c == '_' || c >= 'a' && c <= 'z' || c >= 'A' && c <= 'Z' || c >= '0' && c <= '9')
+	}) {
+		words[w] = true
+	}
+	for _, n := range []string{"repr", "clear", "grid", "gridn", "poly", "ellipse", "dash", "font"} {
+		if words[n] {
+			out = append(out, n)
+		}
+	}
+	return out
+}
+
 func runC02WT(cfg Config, r *Result) {
 	model, err := StartModel("static")
 	if err != nil {
@@ -121,7 +139,7 @@ func runC02WT(cfg Config, r *Result) {
 	for i := 0; i < n; i++ {
 		// the whole proved fragment: functions, event handlers, read, empty literals in arbitrary positions
 		src, _, _ := GenProgram(cfg.Rng, GenOpts{MaxStmts: 8, MaxDepth: 2, Funcs: i%2 == 0, Handlers: i%3 == 0, Reads: i%5 == 0,
-			Empties: i%4 == 0, Tests: i%7 == 0, Specials: true, Gfx: true, MapLitPure: true})
+			Empties: i%4 == 0, Tests: i%7 == 0, Specials: true, Gfx: true, MapLitPure: true, MoreBuiltins: i%2 == 1})
 		progs = append(progs, src)
 	}
 	for i := 0; i < cfg.N(500, 5000); i++ {
@@ -196,10 +214,18 @@ func runC02WT(cfg Config, r *Result) {
 		case !wt:
 			r.Dist("wt-stricter:" + reason)
 			r.Sample(map[string]any{"src": src, "wt": ans, "impl": out.Class})
+		case strings.HasPrefix(ans, "(wt true true true"):
+			r.Dist("wt accepts, in s1_program (and s2_program):" + out.Class)
+			r.Dist("fragment: wt-accepted programs inside s1_program")
 		case s1:
-			r.Dist("ok-stage1:" + out.Class)
+			r.Dist("wt accepts, in s2_program only:" + out.Class)
+			r.Dist("fragment: wt-accepted programs inside s2_program only")
 		default:
-			r.Dist("ok-stage2:" + out.Class)
+			r.Dist("wt accepts, outside the proved fragment:" + out.Class)
+			r.Dist("fragment: wt-accepted programs outside (calls of repr clear grid gridn poly ellipse dash font)")
+			for _, name := range c02OutsideBuiltins(src) {
+				r.Dist("outside the proved fragment: mentions " + name)
+			}
 		}
 	}
 }
